@@ -275,6 +275,19 @@ func (s *MsgSpec) canFailOpen(i int) bool {
 	return s.Attach[i].Source == "fs" || s.Attach[i].Source == "file"
 }
 
+// canFailIsDir: the source of producer i is a path in the file system.
+func (s *MsgSpec) canFailIsDir(i int) bool {
+	if i < len(s.Parts) {
+		return false
+	}
+	i -= len(s.Parts)
+	if i < len(s.Embeds) {
+		return s.Embeds[i].Source == "file"
+	}
+	i -= len(s.Embeds)
+	return s.Attach[i].Source == "file"
+}
+
 // canFailSeek: the source of producer i is a ReadSeeker that go-mail rewinds.
 func (s *MsgSpec) canFailSeek(i int) bool {
 	if i < len(s.Parts) {
